@@ -9,6 +9,7 @@ import (
 	"verif/engine"
 
 	_ "verif/checks/c01"
+	_ "verif/checks/c05"
 	_ "verif/checks/c06"
 	_ "verif/checks/c11"
 	_ "verif/checks/c19"
